@@ -28,6 +28,7 @@ def cfg_for(rng, k):
     c.big_caps = False
     if k % 4 == 1:
         c.n_imports = (1, 2)
+        c.p_import_chain, c.p_transitive_ref, c.p_subdir = 0.5, 0.3, 0.5
     if k % 5 == 0:
         c.name_prefix, c.packing = 0.8, 0.5
     return c
